@@ -87,6 +87,57 @@ macro_rules! dispatch2 {
     };
 }
 
+/// `f` must panic exactly when `should` (documented panic).  Distinct keys for a missing and a
+/// spurious panic; the value is only returned (for comparison) when no panic was due.
+pub fn panics_iff<R>(rep: &mut Rep, rel: &str, should: bool, f: impl FnOnce() -> R) -> Option<R> {
+    match catch(f) {
+        Ok(r) => {
+            if should {
+                rep.fail(&format!("{}.missing_panic", rel), "documented panic did not happen".into());
+                None
+            } else {
+                Some(r)
+            }
+        }
+        Err(m) => {
+            if !should {
+                rep.fail(&format!("{}.spurious_panic", rel), format!("panic outside the documented cases: {}", m));
+            }
+            None
+        }
+    }
+}
+
+/// `Checked<T>`: a none operand on either side, in every operator form, must give none.
+#[macro_export]
+macro_rules! sticky_none {
+    ($rep:expr, $tag:expr, $some:expr, $none:expr, $op:tt, $opa:tt) => {{
+        let (s_, n_) = ($some, $none);
+        let mut bad: Vec<&str> = Vec::new();
+        if bool::from((n_ $op s_).0.is_some()) { bad.push("none_op_some"); }
+        if bool::from((n_ $op &s_).0.is_some()) { bad.push("none_op_ref_some"); }
+        if bool::from((&n_ $op s_).0.is_some()) { bad.push("ref_none_op_some"); }
+        if bool::from((&n_ $op &s_).0.is_some()) { bad.push("ref_none_op_ref_some"); }
+        if bool::from((s_ $op n_).0.is_some()) { bad.push("some_op_none"); }
+        if bool::from((s_ $op &n_).0.is_some()) { bad.push("some_op_ref_none"); }
+        if bool::from((&s_ $op n_).0.is_some()) { bad.push("ref_some_op_none"); }
+        if bool::from((&s_ $op &n_).0.is_some()) { bad.push("ref_some_op_ref_none"); }
+        let mut t = s_; t $opa n_;
+        if bool::from(t.0.is_some()) { bad.push("some_assign_none"); }
+        let mut t = s_; t $opa &n_;
+        if bool::from(t.0.is_some()) { bad.push("some_assign_ref_none"); }
+        let mut t = n_; t $opa s_;
+        if bool::from(t.0.is_some()) { bad.push("none_assign_some"); }
+        let mut t = n_; t $opa &s_;
+        if bool::from(t.0.is_some()) { bad.push("none_assign_ref_some"); }
+        let mut t = n_; t $opa n_;
+        if bool::from(t.0.is_some()) { bad.push("none_assign_none"); }
+        for b in bad {
+            $rep.fail(&format!("{}.sticky_none.{}", $tag, b), "a none operand produced some".into());
+        }
+    }};
+}
+
 pub struct PropDef {
     pub id: &'static str,
     pub workload: fn(&mut Ctx),
